@@ -61,9 +61,11 @@ def describe(case, full=False):
         else:
             o = []
             for op in cl['ops']:
-                if op[0] in ('s', 'p'):
+                if op[0] in ('s', 'p', 'B'):
                     meta = op[-1] if isinstance(op[-1], dict) else {}
                     o.append('%s<%s%s>' % (op[0], meta.get('t', '?'), (' FAULT ' + str(meta['fault'])) if meta.get('fault') else ''))
+                elif op[0] == 'C':
+                    o.append('C%d' % op[1])
                 else:
                     o.append(op[0] + ','.join(str(x) for x in op[1:]))
             ops = ' '.join(o)
